@@ -201,6 +201,8 @@ OPS: List[Op] = [
     # ---- v7
     Op("replace2", 7, ANY, 2, 1, 1, ("u8",)),
     Op("replace3", 7, ANY, 3, 1, 1, ()),
+    # assembler macro: `replace s` is replace2 s, bare `replace` is replace3
+    Op("replace", 7, ANY, lambda im: 2 if im else 3, 1, 1, ("optu8",)),
     Op("base64_decode", 7, ANY, 1, 1, 1, ("b64",)),  # 1 + 1 per 16 bytes of input; static part 1
     Op("json_ref", 7, ANY, 2, 1, 25, ("json",)),  # 25 + 2 per 7 bytes; static part 25
     Op("ed25519verify_bare", 7, ANY, 3, 1, 1900, ()),
@@ -227,7 +229,7 @@ OPS: List[Op] = [
     Op("box_put", 8, APP, 2, 0, 1, ()),
 ]
 BY_NAME: Dict[str, Op] = {o.name: o for o in OPS}
-PSEUDO = ("int", "byte", "addr", "method")
+PSEUDO = ("int", "byte", "addr", "method", "replace")
 
 # ---- fields: name -> introduction version ------------------------------------------------------
 TXN_FIELDS: Dict[str, int] = {
